@@ -119,20 +119,45 @@ int main(int argc, char** argv) {
       }
     }
     const size_t cap = (size_t)1 << kbits;
-    Q* qp = new Q(cap);
-    Q& q = *qp;
-    {
-      int ff = spurious >> 1;
-      spurious &= 1;
-      if (ff) {
-        size_t E = ff == 1 ? 32767 : (ff == 2 ? 32768 : 65535);
-        q._next_push_index.store(E * cap, std::memory_order_relaxed);
-        q._next_pop_index.store(E * cap, std::memory_order_relaxed);
-        for (size_t i = 0; i < cap; ++i)
-          q._slots.futex(i)._futex.value().store((uint32_t)((2 * E) & 0xFFFF), std::memory_order_relaxed);
+    // flags: bit 0 spurious futex returns, bits 1-2 fast-forward code, bits 3-5 transfer mode, bits 6.. prefill count.
+    // Transfer (sequential, before the threads start): the queue is filled with `prefill` values (>= 900000) and then
+    // handed over - 1: fresh.swap(filled)  2: move-constructed from filled  3: move-assigned into a queue of another
+    // capacity that holds one element of its own  4: empty.swap(filled) called on the empty one - and the program
+    // runs on the destination; afterwards the other queue is drained too (it must hold exactly what the destination held, else conserve = 0).
+    const int ff = (spurious >> 1) & 3, tm = (spurious >> 3) & 7;
+    const size_t prefill = (size_t)(spurious >> 6);
+    spurious &= 1;
+    cells.clear();
+    Op preop; preop.k = 'Z'; preop.done = true;
+    auto ff_apply = [&](Q& x) {
+      if (!ff) return;
+      size_t E = ff == 1 ? 32767 : (ff == 2 ? 32768 : 65535);
+      x._next_push_index.store(E * cap, std::memory_order_relaxed);
+      x._next_pop_index.store(E * cap, std::memory_order_relaxed);
+      for (size_t i = 0; i < cap; ++i)
+        x._slots.futex(i)._futex.value().store((uint32_t)((2 * E) & 0xFFFF), std::memory_order_relaxed);
+    };
+    std::vector<uint64_t> junk, other_left;   // what the other queue must hold in the end / what it held
+    auto fill = [&](Q& x, size_t n, bool is_junk = false) {
+      for (size_t i = 0; i < n; ++i) {
+        uint64_t v = (is_junk ? 800000 : 900000) + preop.vals.size() + junk.size();
+        if (x.try_push<true, false>([&](uint64_t& s) { s = v; Cell& c = cells[&s]; c.full = true; c.val = v; })) (is_junk ? junk : preop.vals).push_back(v);
       }
+    };
+    Q* qa = new Q(cap);
+    Q* qb = nullptr;
+    Q* qrun = qa;
+    switch (tm) {
+      case 1: ff_apply(*qa); fill(*qa, prefill); qb = new Q(cap); qb->swap(*qa); qrun = qb; break;
+      case 2: ff_apply(*qa); fill(*qa, prefill); qb = new Q(std::move(*qa)); qrun = qb; break;
+      case 3: ff_apply(*qa); fill(*qa, prefill); qb = new Q(2 * cap); fill(*qb, 1, true); *qb = std::move(*qa); qrun = qb; break;
+      case 4: qb = new Q(cap); ff_apply(*qb); fill(*qb, prefill); qa->swap(*qb); qrun = qa; break;
+      default: ff_apply(*qa); break;
     }
-    cells.clear(); m_excl = m_state = m_publish = true; filler = 1000000;
+    Q* qother = qrun == qa ? qb : qa;
+    Q& q = *qrun;
+    preop.n = preop.cnt = preop.pushed_cnt = preop.vals.size();
+    m_excl = m_state = m_publish = true; filler = 1000000;
     cells_on = true;
     for (auto& th : threads) for (auto& o : th) if (o.en && strchr("vqierj", o.en)) cells_on = false;
     size_t producers = 0, producers_done = 0;
@@ -336,12 +361,22 @@ int main(int argc, char** argv) {
       if (!q.try_pop<true, false>([&](uint64_t& s) { Cell& c = cells[&s]; full_before = c.full; if (cells_on && !c.full) m_state = false; if (cells_on && c.full && s != c.val) m_publish = false; c.full = false; v = s; })) break;
       left.push_back(v);
     }
+    if (qother && qother->capacity() != 0)
+      for (size_t i = 0; i < 8 * cap + 8; ++i) {
+        uint64_t v = 0;
+        if (!qother->try_pop<true, false>([&](uint64_t& s) { cells[&s].full = false; v = s; })) break;
+        other_left.push_back(v);
+      }
     // ---- monitors over the recorded history ----
     struct Ev { uint64_t v; const Op* op; int pos; uint64_t b, e; };
     std::vector<Ev> pushes, pops;
     uint64_t inf = ~0ull;
     std::vector<const Op*> all;
     std::string out;
+    if (!preop.vals.empty()) {
+      all.push_back(&preop);
+      for (size_t j = 0; j < preop.vals.size(); ++j) pushes.push_back(Ev{preop.vals[j], &preop, (int)j, 0, 0});
+    }
     for (size_t t = 0; t < threads.size(); ++t) {
       for (size_t i = 0; i < threads[t].size(); ++i) {
         Op& op = threads[t][i];
@@ -363,7 +398,7 @@ int main(int argc, char** argv) {
     }
     std::vector<Op> drains(left.size());
     for (size_t i = 0; i < left.size(); ++i) pops.push_back(Ev{left[i], &drains[i], 0, inf - 2 * left.size() + 2 * i, inf - 2 * left.size() + 2 * i + 1});
-    bool conserve = true, nodup = true, fifo = true, tryjust = true, timed = true, avail = true, counts = true;
+    bool conserve = other_left == junk, nodup = true, fifo = true, tryjust = true, timed = true, avail = true, counts = true;
     {
       std::map<uint64_t, int> pc, oc;
       for (auto& e : pushes) pc[e.v]++;
@@ -461,7 +496,8 @@ int main(int argc, char** argv) {
            id, (unsigned long long)r.steps, (unsigned long long)r.preemptions, out.c_str(), m_excl, m_state, m_publish,
            conserve, nodup, counts, fifo, tryjust, timed, avail, prefix, left.size());
     fflush(stdout);
-    delete qp;
+    delete qa;
+    delete qb;
   }
   return 0;
 }
